@@ -105,7 +105,10 @@ def merge(ctx, d):
     ctx.replays += d["replays"]
     ctx.vacuity.update(d["vacuity"])
     for k, v in d["extra"].items():
-        ctx.extra.setdefault(k, v)
+        if k == "lemma_samples":
+            ctx.extra.setdefault(k, []).extend(v)
+        else:
+            ctx.extra.setdefault(k, v)
     for kind, a, b in d["pending"]:
         if kind == "violation":
             ctx.report_violation(a, b)
@@ -134,13 +137,16 @@ def run_parallel(ctx, jobs, tv_ops, procs=None):
 # ---------------------------------------------------------------------------------------------------------------
 # lemma scaffolding
 
+TV_OPS_FOR = {"A1": ["oe"], "A2": ["qm"], "A3": ["ws"], "A4": ["fin", "block"], "A5": ["nl"], "A6": ["flat"], "A9": ["block"]}
+
+
 class LemmaRun:
     def __init__(self, ctx, name, bound=None):
         self.ctx, self.name, self.bound = ctx, name, bound
         self.prog = get_prog(ctx)
         if not os.environ.get("VERIF_SKIP_TV"):
             # no verdict without a validated translator (DESIGN §3.1); a no-op when run_parallel has done it already
-            ensure_tv(ctx, tv.STRING_OPS if name.startswith("S") else tv.STAGE1_OPS)
+            ensure_tv(ctx, TV_OPS_FOR.get(name[:2], tv.STRING_OPS if name.startswith("S") else tv.STAGE1_OPS))
         self.ex = x86.Executor(self.prog, timeout_ms=60000 if ctx.tier == "quick" else 600000)
         self.paths = 0
         self.t0 = time.time()
@@ -159,9 +165,12 @@ class LemmaRun:
         c = simp(claim)
         if not self.sampled:
             self.sampled = True
-            self.ctx.sample({"lemma": self.name, "bound": self.bound, "obligation": "path condition ∧ ¬claim must be unsat",
-                             "path_conjuncts": len(st.path), "exit": st.exit, "instructions_on_path": st.steps,
-                             "claim_excerpt": str(c)[:300]})
+            smp = {"lemma": self.name, "bound": self.bound, "obligation": "path condition ∧ ¬claim must be unsat",
+                   "path_conjuncts": len(st.path), "exit": st.exit, "instructions_on_path": st.steps,
+                   "claim_excerpt": str(c)[:300]}
+            self.ctx.sample(smp)
+            # CheckCtx.sample keeps the first 12 only: the complete per-lemma list goes here
+            self.ctx.extra.setdefault("lemma_samples", []).append(smp)
         if z3.is_true(c):
             self.ex.queries += 1
             return None
@@ -285,12 +294,7 @@ def block_of(m, B):
 
 
 def go_consts():
-    src = open(os.path.join(common.REPO, "parsed_json.go")).read()
-    m1 = re.search(r"^const indexSize = (\d+)", src, re.M)
-    m2 = re.search(r"^const indexSizeWithSafetyBuffer = indexSize - (\d+)", src, re.M)
-    if not (m1 and m2):
-        raise Inconclusive("cannot read indexSize / indexSizeWithSafetyBuffer from parsed_json.go")
-    return int(m1.group(1)), int(m1.group(1)) - int(m2.group(1))
+    return tv.go_consts()
 
 
 # ---- concrete reference evaluation (expectation for replays) --------------------------------------------------------
@@ -1225,7 +1229,10 @@ def A7(ctx, family, cases=None, ndjson=None):
                "starts a buffer at 0/1 and hands the buffer of an early-exited call, index <= limit-1+64, to the padded tail call: G1)" % (LIMIT + 63))
     ctx.stubs.add("A7/A8: CALL __find_* / __flatten_bits_incremental = summaries justified by A1–A6 (A8: by the pairwise subroutine equivalences)")
     extra = [] if ndjson is None else [(lambda S: S.nd == ndjson)]
+    ctx.assume("A7/A8: len >= 1 (the Go wrappers return 0 without entering the assembly for an empty slice)")
     for nb, r in cases:
+        if nb == 0 and r == 0:
+            continue
         bad = _a7_case(L, family, nb, r, LIMIT, UFProvider(), extra=extra, isz=INDEX_SIZE)
         if bad is None:
             continue
@@ -1346,14 +1353,17 @@ def A8(ctx, parts=None, cases=None):
         INDEX_SIZE, LIMIT = go_consts()
         cs = cases or [(nb, r) for nb in (0, 1, 2) for r in tails_for(ctx)]
         L = LemmaRun(ctx, "A8.A7[%s]" % ",".join("%d+%d" % c for c in cs[:3]) + ("..." if len(cs) > 3 else ""),
-                     bound="slice drivers: blocks in %s x tails %s; any carry-in; index < %d; ndjson symbolic"
+                     bound="slice drivers: blocks in %s x tails %s; any carry-in and error mask; index <= %d+63; ndjson symbolic"
                            % (sorted(set(b for b, _ in cs)), _ranges(sorted(set(r for _, r in cs))), LIMIT))
         ctx.assume("A8.A7: callees are uninterpreted functions shared by both families (justified by A8.A1–A8.A5 incl. the register "
                    "contracts; __flatten_bits_incremental is the same code for both), index-buffer contents compared as the "
                    "sequence of flatten_bits calls")
         ctx.stubs.add("A7/A8: CALL __find_* / __flatten_bits_incremental = summaries justified by A1–A6 (A8: by the pairwise subroutine equivalences)")
         done = False
+        ctx.assume("A7/A8: len >= 1 (the Go wrappers return 0 without entering the assembly for an empty slice)")
         for nb, r in cs:
+            if nb == 0 and r == 0:
+                continue
             bad = _a8_case(L, nb, r, LIMIT, UFProvider())
             if bad is None:
                 continue
@@ -1886,7 +1896,10 @@ def S2(ctx, iters=2, shard=None):
     first-iteration paths (for parallel runs)."""
     iters = int(iters)
     N = 43 * (iters - 1) + WIN
-    nm = "S2[%d]" % iters + ("" if shard is None else "#%d/%d" % (shard[0], shard[1]))
+    # shard = (i1, n1[, i2, n2 ...]): after iteration k the continuing (and returning) paths are split n_k ways
+    sh = list(shard or ())
+    lv = {k + 1: (sh[2 * k], sh[2 * k + 1]) for k in range(len(sh) // 2)}
+    nm = "S2[%d]" % iters + ("" if shard is None else "#" + ".".join("%d/%d" % lv[k] for k in sorted(lv)))
     L = LemmaRun(ctx, nm, bound="whole function, strings needing <= %d iterations (%d symbolic bytes), maxStringSize symbolic" % (iters, N))
     ex, prog = L.ex, L.prog
     head, _ = _ps_heads(prog)
@@ -1906,36 +1919,40 @@ def S2(ctx, iters=2, shard=None):
     refsteps = []
     cur, dl = BV(0, 64), BV(0, 64)
     for k in range(iters):
-        sh = z3.LShR(big, z3.ZeroExt(big.size() - 64, cur) << 3)
-        Wk = [z3.Extract(8 * j + 7, 8 * j, sh) for j in range(WIN)]
+        shf = z3.LShR(big, z3.ZeroExt(big.size() - 64, cur) << 3)
+        Wk = [z3.Extract(8 * j + 7, 8 * j, shf) for j in range(WIN)]
         SR = StrRef(Wk)
         refsteps.append((cur, dl, SR))
         cur, dl = cur + SR.adv, dl + SR.dadv
     refsteps.append((cur, dl, None))
-    excl_known = []
     level = [st]
     done = []
     dropped = 0
     for k in range(iters + 1):
-        nxt = []
-        for s in level:
-            fins = ex.run(s, stop_at=[head])
-            for f in fins:
+        nxt, rets = [], []
+        for s_ in level:
+            for f in ex.run(s_, stop_at=[head]):
                 if f.exit == "ret":
                     f.iters = k
-                    done.append(f)
+                    rets.append(f)
                 else:
                     nxt.append(f)
-        if k == 0 and shard is not None:
-            nxt = nxt        # the prologue yields a single head state; sharding happens after the first iteration
-        if k == 1 and shard is not None:
-            nxt = [f for j, f in enumerate(nxt) if j % shard[1] == shard[0]]
-            done = [f for j, f in enumerate(done) if f.iters == 0 or j % shard[1] == shard[0]]
+        # returns of iteration k belong to the shard whose indices for the deeper levels are all 0
+        deeper_zero = all(lv[j][0] == 0 for j in lv if j > k)
+        if k in lv:
+            i_k, n_k = lv[k]
+            rets = [f for j, f in enumerate(rets) if j % n_k == i_k]
+            nxt = [f for j, f in enumerate(nxt) if j % n_k == i_k]
+        if deeper_zero:
+            done += rets
         if k == iters:
             dropped = len(nxt)
             nxt = []
         level = nxt
     ex.assumptions = []
+    if not done:
+        L.notes.append("empty shard")
+        L.reached = 1
     L.notes.append("%d returning paths checked, %d paths continue beyond %d iterations (outside the bound)" % (len(done), dropped, iters))
     f3 = lambda upto: z3.Or(*[refsteps[j][2].cls_f3 for j in range(upto)]) if upto else z3.BoolVal(False)
     excl = {}
@@ -1948,12 +1965,13 @@ def S2(ctx, iters=2, shard=None):
             claim = z3.And(maxs == 0, res == 0)
             used = 0
         else:
-            used = m_it
-            # reference run over the first m_it steps: first terminal status wins
+            used = iters
+            # reference run over all `iters` steps of the bound: first terminal status wins; a reference still running
+            # after the bound cannot be judged here (outside the bound; the step lemma S1 covers the deviation itself)
             running = maxs != 0
             acc, rej, dcs = z3.BoolVal(False), maxs == 0, z3.BoolVal(False)
             a_sl, a_dl = BV(0, 64), BV(0, 64)
-            for j in range(m_it):
+            for j in range(iters):
                 cj, dj, SRj = refsteps[j]
                 dcs = z3.Or(dcs, z3.And(running, SRj.dontcare))
                 acc_j = z3.And(running, SRj.is_quote)
@@ -1963,6 +1981,7 @@ def S2(ctx, iters=2, shard=None):
                 cut = z3.And(SRj.cont, z3.UGE(cj + SRj.adv, maxs))
                 rej = z3.Or(rej, z3.And(running, z3.Or(SRj.reject, cut)))
                 running = z3.And(running, SRj.cont, z3.Not(cut))
+            dcs = z3.Or(dcs, running)
             claim = z3.Or(dcs, z3.And(acc, res != 0, sl == a_sl, dlv == a_dl), z3.And(rej, res == 0))
         while True:
             m = L.refute(f, claim, hyp + [z3.Not(x) for x in excl.values()])
